@@ -90,6 +90,50 @@ def mutants(path, rel):
                 yield {"file": rel, "line": ln + 1, "op": name, "before": line.strip(), "after": new.strip()}, text
 
 
+def mutants2(path, rel):
+    """second operator set: statement deletion, dropped `if .. { return Err(..) }` blocks, negated conditions, swapped call arguments"""
+    src = open(path).read()
+    cut = src.find("#[cfg(test)]")
+    body = src if cut < 0 else src[:cut]
+    tail = src[cut:] if cut >= 0 else ""
+    lines = body.split("\n")
+    def emit(info, new_lines):
+        return info, "\n".join(new_lines) + tail
+    for ln, line in enumerate(lines):
+        st = line.strip()
+        if not st or st.startswith("//") or st.startswith("#") or st.startswith("use "):
+            continue
+        # (a) delete a simple statement
+        if st.endswith(";") and not st.startswith(("let ", "return", "pub ", "const ", "type ", "use ", "fn ", "}")) and "=>" not in st and st.count("(") == st.count(")") and st.count("{") == st.count("}"):
+            yield emit({"file": rel, "line": ln + 1, "op": "del-stmt", "before": st, "after": "/* deleted */"}, lines[:ln] + [line[:len(line) - len(line.lstrip())] + "/* deleted */"] + lines[ln + 1:])
+        # (b) drop an `if cond { return Err(..); }` block (balanced braces, <= 12 lines)
+        if st.startswith("if ") and st.endswith("{"):
+            depth = 0
+            end = None
+            for k in range(ln, min(ln + 14, len(lines))):
+                depth += lines[k].count("{") - lines[k].count("}")
+                if depth == 0:
+                    end = k
+                    break
+            if end is not None and end > ln and lines[end].strip() == "}":
+                blk = "\n".join(lines[ln:end + 1])
+                if "return Err" in blk and "else" not in lines[end]:
+                    yield emit({"file": rel, "line": ln + 1, "op": "drop-check", "before": st, "after": "/* check dropped */"}, lines[:ln] + ["/* check dropped */"] + lines[end + 1:])
+            # (c) negate the condition
+            cond = st[3:-1].strip()
+            if " let " not in " " + cond and not cond.startswith("let "):
+                ind = line[:len(line) - len(line.lstrip())]
+                yield emit({"file": rel, "line": ln + 1, "op": "negate-if", "before": st, "after": "if !(%s) {" % cond}, lines[:ln] + [ind + "if !(%s) {" % cond] + lines[ln + 1:])
+        # (d) swap the two arguments of a 2-argument call
+        code = line.split("//")[0]
+        for m in re.finditer(r"\b([a-z_][\w:]*)\(([\w.\[\]&* ]+?), ([\w.\[\]&* ]+?)\)", code):
+            a1, a2 = m.group(2).strip(), m.group(3).strip()
+            if a1 == a2 or m.group(1) in ("fn",) or ":" in a1 + a2:
+                continue
+            new = code[:m.start()] + "%s(%s, %s)" % (m.group(1), a2, a1) + code[m.end():]
+            yield emit({"file": rel, "line": ln + 1, "op": "swap-args", "before": st, "after": new.strip()}, lines[:ln] + [new] + lines[ln + 1:])
+
+
 def main():
     ap = argparse.ArgumentParser()
     ap.add_argument("--out", required=True)
@@ -99,6 +143,7 @@ def main():
     ap.add_argument("--work", default="/root/scratch/mutsweep")
     ap.add_argument("--stride", type=int, default=1, help="take every n-th mutant")
     ap.add_argument("--offset", type=int, default=0)
+    ap.add_argument("--set", type=int, default=1, help="1 = operator/constant mutations, 2 = statement deletion / dropped checks / negated conditions / swapped arguments")
     a = ap.parse_args()
     files = a.files.split(",") if a.files else FILES
     work = a.work
@@ -124,7 +169,7 @@ def main():
     try:
         for rel in files:
             orig = open(os.path.join("/repo", rel)).read()
-            for info, text in mutants(os.path.join("/repo", rel), rel):
+            for info, text in (mutants if a.set == 1 else mutants2)(os.path.join("/repo", rel), rel):
                 idx += 1
                 if (idx - a.offset) % a.stride != 0:
                     continue
@@ -148,7 +193,7 @@ def main():
                     info["verus_errors"] = len(errs)
                     info["failing"] = sorted(set("%s%s" % (e.get("fn"), ("." + ",".join(e["labels"])) if e.get("labels") else ".safety") for e in errs))[:8]
                     info["gen_msg"] = (res.get("gen_msg") or "")[:300]
-                    info["lost_fns"] = sorted((res.get("meta", {}) or {}).get("lost_fns", {}).keys()) if isinstance(res.get("meta"), dict) else []
+                    info["lost_fns"] = sorted((res.get("lost_fns") or {}).keys()) if isinstance(res.get("lost_fns"), dict) else list(res.get("lost_fns") or [])
                     info["verus_s"] = round(res.get("verus_s", 0), 1)
                 out.write(json.dumps(info) + "\n")
                 out.flush()
